@@ -1836,7 +1836,9 @@ class CParser:
                 # (type){...} is a compound literal, not a cast. Examples:
                 #   (int){1}      -> compound literal, handled in postfix
                 #   (int) x       -> cast, handled below
-                self._reset(mark)
+                # Hand the parsed type over instead of parsing it a second
+                # time (re-parsing doubles the work per nesting level).
+                return self._parse_postfix_expression(compound_type=typ)
             else:
                 expr = self._parse_cast_expression()
                 return c_ast.Cast(typ, expr, self._tok_coord(lparen_tok))
@@ -1881,22 +1883,34 @@ class CParser:
 
     # BNF: postfix_expression   : primary_expression postfix_suffix*
     #                           | '(' type_name ')' '{' initializer_list ','? '}'
-    def _parse_postfix_expression(self) -> c_ast.Node:
-        result = self._try_parse_paren_type_name()
-        if result is not None:
-            typ, mark, _ = result
-            # Disambiguate between casts and compound literals:
-            #   (int) x   -> cast
-            #   (int) {1} -> compound literal
-            if self._accept("LBRACE"):
-                init = self._parse_initializer_list()
-                self._accept("COMMA")
-                self._expect("RBRACE")
-                return c_ast.CompoundLiteral(typ, init)
-            else:
-                self._reset(mark)
+    def _parse_postfix_expression(
+        self, compound_type: Optional[c_ast.Typename] = None
+    ) -> c_ast.Node:
+        # compound_type: the type name of a compound literal whose '(' type ')'
+        # the caller has already consumed.
+        typ = compound_type
+        if typ is None:
+            result = self._try_parse_paren_type_name()
+            if result is not None:
+                # Disambiguate between casts and compound literals:
+                #   (int) x   -> cast
+                #   (int) {1} -> compound literal
+                if self._peek_type() == "LBRACE":
+                    typ = result[0]
+                else:
+                    self._reset(result[1])
 
-        expr = self._parse_primary_expression()
+        expr: c_ast.Node
+        if typ is not None:
+            self._expect("LBRACE")
+            init = self._parse_initializer_list()
+            self._accept("COMMA")
+            self._expect("RBRACE")
+            # A compound literal is a postfix-expression: it can be followed
+            # by the usual suffixes, e.g. (struct S){1}.x
+            expr = c_ast.CompoundLiteral(typ, init)
+        else:
+            expr = self._parse_primary_expression()
         while True:
             if self._accept("LBRACKET"):
                 sub = self._parse_expression()
